@@ -107,18 +107,29 @@ type OpCase struct {
 
 // OpEvent is one observed call of the real code.
 type OpEvent struct {
-	N     int    `json:"n"`     // case number
-	First bool   `json:"first"` // first event of its case (resets the trace state)
-	Op    string `json:"op"`
-	A     int    `json:"a"`
-	B     int    `json:"b"`
-	Pre   Subs   `json:"pre"`
-	Pre2  Subs   `json:"pre2"`
-	Post  Subs   `json:"post"`
-	Post2 Subs   `json:"post2"`
-	Res   string `json:"res"` // ok | panic | timeout
-	Unit  int64  `json:"-"`
-	Msg   string `json:"msg"`
+	N     int         `json:"n"`     // case number
+	First bool        `json:"first"` // first event of its case (resets the trace state)
+	Op    string      `json:"op"`
+	A     int         `json:"a"`
+	B     int         `json:"b"`
+	Pre   Subs        `json:"pre"`
+	Pre2  Subs        `json:"pre2"`
+	Post  Subs        `json:"post"`
+	Post2 Subs        `json:"post2"`
+	Res   string      `json:"res"` // ok | panic | timeout
+	Unit  int64       `json:"-"`
+	Msg   string      `json:"msg"`
+	Wb    []WriteBack `json:"wb"` // optimize: write -> read of the list before and after the call, per format
+}
+
+// WriteBack is the outcome of writing a list to one format and reading it back, before and after an operation:
+// res = ok | write-<err> | read-<err>; cues = start ms, end ms, text of every cue read back.
+type WriteBack struct {
+	Fmt      string     `json:"fmt"`
+	PreRes   string     `json:"preres"`
+	PostRes  string     `json:"postres"`
+	PreCues  [][]string `json:"precues"`
+	PostCues [][]string `json:"postcues"`
 }
 
 // IntMap is a TLA+ function string |-> int (TLC prints the empty function as []).
